@@ -130,6 +130,104 @@ class AbsCallable(VAbs):
         return [(st, fresh(VAL, "callres"))]
 
 
+class AbsKDDataset(VAbs):
+    """the layer below a wrapper, given by its abstract contract (structural induction hypothesis of C02):
+    Len, Item(name, k), All(name)[k] == Item(name, k) with len Len, Root, Wrappers, WrapperTypes; `dispose`,
+    `worker_init_fn` are recorded in ghost counters."""
+    label = "kd-dataset"
+
+    def __init__(self, name, idx=()):
+        self.name, self.idx = name, tuple(idx)
+        self.n = _fn(name + "$len", idx, z3.IntSort())
+
+    def key(self):
+        return (self.name, self.idx)
+
+    def length(self, st, eng):
+        _nonneg(st, self.name + "$len", self.idx)
+        return VInt(self.n)
+
+    def item(self, name_t, k):
+        return VVal(_fn(self.name + "$item", self.idx, ValSort, (name_t, k)))
+
+    def all_of(self, name_t, kind=None):
+        sq = VSeq(self.n, lambda k: self.item(name_t, k), VAL)
+        sq.kind = _fn(self.name + "$allkind", self.idx, z3.IntSort(), (name_t,)) if kind is None else kind
+        return sq
+
+    def _name_term(self, name):
+        for pre in ("getitem_", "getall_"):
+            if name.startswith(pre):
+                name = name[len(pre):]
+        return VStr(name).t
+
+    def hasattr(self, name, st, eng):
+        if name.startswith("getall_") or name.startswith("getitem_"):
+            return _fn(self.name + "$has", self.idx, z3.BoolSort(), (self._name_term(name),))
+        return z3.BoolVal(name in ("root_dataset", "all_wrappers", "all_wrapper_types", "dispose", "worker_init_fn",
+                                   "collators", "fused_operations", "requires_propagate_ctx", "has_wrapper",
+                                   "has_wrapper_type", "get_wrappers_of_type", "getshape_class", "getdim_class"))
+
+    def _getter(self, name_t, kind):
+        if kind == "getitem":
+            def f(args, kwargs, s, e):
+                k = _e.to_int(e.deref(args[0], s))
+                e.safety(s, "lower-dataset:index-inbounds", z3.And(0 <= k, k < self.n), None,
+                         "index passed to the wrapped dataset is out of its range")
+                return self.item(name_t, k)
+            return VFunc("lower.getitem", f)
+
+        def g(args, kwargs, s, e):
+            _nonneg(s, self.name + "$len", self.idx)
+            return self.all_of(name_t)
+        return VFunc("lower.getall", g)
+
+    def getattr(self, name, st, eng):
+        if name.startswith("getitem_"):
+            return self._getter(self._name_term(name), "getitem")
+        if name.startswith("getall_"):
+            return self._getter(self._name_term(name), "getall")
+        if name == "root_dataset":
+            return VVal(_fn(self.name + "$root", self.idx, ValSort))
+        if name in ("all_wrappers", "all_wrapper_types", "collators", "fused_operations"):
+            ln = _fn(self.name + "$" + name + "$len", self.idx, z3.IntSort())
+            st.assume(ln >= 0) if not self.idx else None
+            return VSeq(z3.If(ln >= 0, ln, 0), lambda k: VVal(_fn(self.name + "$" + name, self.idx, ValSort, (k,))), VAL)
+        if name == "requires_propagate_ctx":
+            return VBool(_fn(self.name + "$rpc", self.idx, z3.BoolSort()))
+        if name in ("dispose", "worker_init_fn"):
+            def f(args, kwargs, s, e):
+                g = "g_" + name
+                if g in s.ghost:
+                    s.ghost[g] = VInt(s.ghost[g].t + 1)
+                if "g_last_" + name in s.ghost:
+                    s.ghost["g_last_" + name] = VInt(self.idx[0] if self.idx else z3.IntVal(0))
+                return NONEV
+            return VFunc("lower." + name, f)
+        if name in ("get_wrappers_of_type", "has_wrapper", "has_wrapper_type"):
+            def f(args, kwargs, s, e):
+                a = args[0]
+                at = a.t if hasattr(a, "t") else VStr(getattr(a, "name", "obj")).t
+                if at.sort() != z3.IntSort():
+                    at = z3.Function("val2int", ValSort, z3.IntSort())(at)
+                if name == "get_wrappers_of_type":
+                    ln = _fn(self.name + "$wot$len", self.idx, z3.IntSort(), (at,))
+                    return VSeq(z3.If(ln >= 0, ln, 0), lambda k: VVal(_fn(self.name + "$wot", self.idx, ValSort, (at, k))), VAL)
+                return VBool(_fn(self.name + "$" + name, self.idx, z3.BoolSort(), (at,)))
+            return VFunc("lower." + name, f)
+        raise KeyError(name)
+
+    def call_method(self, name, args, kwargs, st, eng):
+        if name == "__getattr_sym__":
+            nm = args[0]
+            # symbolic accessor name: the caller has established its prefix; both getitem_ and getall_ are offered
+            kind = kwargs.get("kind")
+            raise Unsupported("symbolic accessor name on the lower dataset")
+        raise Unsupported(f"kd-dataset.{name}")
+
+
+KDDATASET = TAbs(lambda name, idx: AbsKDDataset(name, idx), "kd-dataset")
+
 SAMPLER = TAbs(lambda name, idx: AbsSampler(name, idx), "sampler")
 DATASET = TAbs(lambda name, idx: AbsDataset(name, idx), "dataset")
 CALLABLE = TAbs(lambda name, idx: AbsCallable(name, idx), "callable")
@@ -152,3 +250,22 @@ def install_spec_builtins(eng):
     def item(args, kwargs, st, eng):
         return args[0].getitem(args[1], st, eng)
     eng.spec_builtins["Item"] = VFunc("Item", item)
+
+    def kitem(args, kwargs, st, eng):           # KItem(ds, "getitem_x" | "getall_x" -> "x", k)
+        nm = args[1].s
+        return args[0].item(VStr(nm).t, _e.to_int(args[2]))
+    eng.spec_builtins["KItem"] = VFunc("KItem", kitem)
+
+    def root(args, kwargs, st, eng):
+        return args[0].getattr("root_dataset", st, eng)
+    eng.spec_builtins["Root"] = VFunc("Root", root)
+
+    def attr(args, kwargs, st, eng):
+        return args[0].getattr(args[1].s, st, eng)
+    eng.spec_builtins["Attr"] = VFunc("Attr", attr)
+
+    def call_attr(args, kwargs, st, eng):
+        f = args[0].getattr(args[1].s, st, eng)
+        r = f.fn(list(args[2:]), {}, st, eng)
+        return r[0][1] if isinstance(r, list) else r
+    eng.spec_builtins["CallAttr"] = VFunc("CallAttr", call_attr)
